@@ -540,7 +540,11 @@ class Emulsion(list):
         dist, index = tree.query(positions, 2)
 
         if subtract_radius:
-            return dist[:, 1] - self.data["radius"][index].sum(axis=1)  # type: ignore
+            # the neighbor is the first hit that is not the droplet itself (the droplet
+            # itself is not necessarily among the hits if several centers coincide)
+            radii = self.data["radius"]
+            neighbor = np.where(index[:, 0] == np.arange(len(self)), index[:, 1], index[:, 0])
+            return dist[:, 1] - radii - radii[neighbor]  # type: ignore
         else:
             return dist[:, 1]  # type: ignore
 
